@@ -2,7 +2,7 @@ INIT Init
 NEXT Next
 CHECK_DEADLOCK FALSE
 CONSTANTS
-  Modes = {"single", "legacy", "indirect", "lists", "norm"}
+  Modes = {"single", "legacy", "indirect", "lists", "norm", "line"}
   FullEnc = FALSE
   MaxList = 3
   BigList = FALSE
